@@ -293,6 +293,24 @@ def two_dim_array(root, rng):
     return Injection("two-dimensional-array", False, f, [raw])
 
 
+def _cut_off_at_eof(what: str):
+    """The file ends in the middle of a construct (in the main file or an imported one): the diagnostic has no token to stand on,
+    it must still cite the file and one of the lines of the unfinished construct."""
+    def fn(root, rng):
+        f = rng.choice(root.all_files())
+        n = fresh("Hotel")
+        texts = {"message": [f"message {n} {{", "    bool a = 1"], "enum": [f"enum {n} : uint3 {{", f"    {n.upper()}_A = 0"],
+                 "statement": [f"message {n} {{ bool a = 1 }}", f"const {n.upper()}_C ="], "header": [f"message {n}"]}[what]
+        raws = []
+        for t in texts:
+            r = RawLine(t)
+            r.parent = f
+            f.items.append(r)
+            raws.append(r)
+        return Injection(f"cut-off-at-eof:{what}", False, f, raws)
+    return fn
+
+
 def _forbidden(scope_kind: str, what: str):
     texts = {
         "alias": lambda: f"type {fresh('Oscar')} = uint8",
@@ -533,6 +551,8 @@ _reg("alias-of-array-of-named", alias_of_array_of_named)
 _reg("alias-of-alias", alias_of_alias)
 _reg("alias-of-alias:2", alias_of_alias)
 _reg("two-dimensional-array", two_dim_array)
+for _w in ("message", "enum", "statement", "header"):
+    _reg(f"cut-off-at-eof:{_w}", _cut_off_at_eof(_w))
 for _what in ("alias", "const", "import", "proto"):
     _reg(f"forbidden:{_what}-in-message", _forbidden("message", _what))
 for _what in ("alias", "const", "import", "proto", "option", "enum", "message", "field"):
